@@ -55,7 +55,7 @@ pub fn install() {
         for sig in [libc::SIGSEGV, libc::SIGBUS, libc::SIGILL, libc::SIGABRT, libc::SIGFPE] {
             let mut sa: libc::sigaction = std::mem::zeroed();
             sa.sa_sigaction = handler as *const () as usize;
-            sa.sa_flags = libc::SA_SIGINFO | libc::SA_ONSTACK | libc::SA_RESETHAND;
+            sa.sa_flags = libc::SA_SIGINFO | libc::SA_ONSTACK;
             libc::sigaction(sig, &sa, std::ptr::null_mut());
         }
     }
@@ -71,7 +71,15 @@ pub fn install_thread_altstack() {
     }
 }
 
+static CRASHING: std::sync::atomic::AtomicBool = std::sync::atomic::AtomicBool::new(false);
+
 extern "C" fn handler(sig: libc::c_int, _info: *mut libc::siginfo_t, _ctx: *mut libc::c_void) {
+    // several workers usually hit the same defect at the same time: only the first one reports, the others wait
+    if CRASHING.swap(true, std::sync::atomic::Ordering::SeqCst) {
+        loop {
+            unsafe { libc::pause() };
+        }
+    }
     // best effort: formatting is not async-signal-safe, but the process is lost anyway
     let d = describe().unwrap_or_else(|| "<none>".into());
     let insub = IN_SUBJECT.with(|c| c.get());
